@@ -27,10 +27,11 @@ EXTENDS Integers, Sequences, FiniteSets, TLC, Json, IOUtils
 Rec   == ndJsonDeserialize(IOEnv.TRACE)
 Known == ndJsonDeserialize(IOEnv.KNOWN)
 
-VARIABLES l, prev, crashed
+VARIABLES l, prev, crashed, stopped
 \* crashed: entities whose certification was interrupted between the certificate insert and the
 \*          open-message update (used only to identify the listed known finding)
-tvars == <<l, prev, crashed>>
+\* stopped: a process stop was injected earlier in this run (the aggregator has been restarted from its database since)
+tvars == <<l, prev, crashed, stopped>>
 E == Rec[l]
 IsEvent(name) == l <= Len(Rec) /\ Rec[l].ev = name /\ Rec[l].seq = l /\ l' = l + 1
 
@@ -168,11 +169,11 @@ StepOk(p, e) ==
     /\ C16 => (KeepsOthers(p, e) /\ BatchDelivers(p, e) /\ SignerListHonest(p, e.obs))
 
 -----------------------------------------------------------------------------
-TraceInit == l = 1 /\ prev = [none |-> TRUE] /\ crashed = {}
+TraceInit == l = 1 /\ prev = [none |-> TRUE] /\ crashed = {} /\ stopped = FALSE
 
 TStart ==
     /\ IsEvent("Start")
-    /\ crashed' = {}
+    /\ crashed' = {} /\ stopped' = FALSE
     /\ prev' = E.obs
     /\ LET saved == crashed IN ObsInv(E.obs)
 
@@ -180,6 +181,10 @@ TObs ==
     /\ IsEvent("Obs")
     /\ crashed' = IF E.action.a = "Crash" /\ E.result.hit /\ E.result.at = "certifier.after_cert_insert"
                   THEN crashed \cup {E.result.entity} ELSE crashed
+    /\ stopped' = (stopped \/ (E.action.a = "Crash" /\ E.result.hit))
+    \* C15 "resumable": once restarted after a stop, the aggregator does not die by itself on what the stop left behind
+    \* (a panic of the code under test is recorded by the harness as `panic` in the result, followed by a restart)
+    /\ C15 => ~(stopped /\ "panic" \in DOMAIN E.result)
     /\ StepOk(prev, E)
     /\ ObsInv(E.obs)
     /\ prev' = E.obs
@@ -190,7 +195,7 @@ TProgress ==
     /\ IsEvent("Progress")
     /\ ~C15 \/ E.certified_after_recovery \/ KnownFor([ev |-> "Progress", certified_after_recovery |-> FALSE,
                                               after |-> E.after])
-    /\ UNCHANGED <<prev, crashed>>
+    /\ UNCHANGED <<prev, crashed, stopped>>
 
 TraceNext == TStart \/ TObs \/ TProgress
 TraceSpec == TraceInit /\ [][TraceNext]_tvars
